@@ -25,10 +25,12 @@ def tla_set(xs):
 
 def write_mc_cfg(path, *, spec="Spec", deviations=(), net_kinds=(), net_budget=0, adv_kinds=(), adv_budget=0,
                  max_ord=2, fpcs=("match",), fpss=("none",), idcs=("certC",), idss=("certS",), deadline=False,
-                 app=True, invariants=(), properties=(), emit="NoEmit", extra_inv=()):
+                 app=True, invariants=(), properties=(), emit="NoEmit", extra_inv=(), server_hvr=False, anti_replay=()):
     with open(path, "w") as f:
         f.write(f"""SPECIFICATION {spec}
 CONSTANTS
+  AntiReplay = {tla_set(anti_replay)}
+  ServerHvr = {"TRUE" if server_hvr else "FALSE"}
   Deviations = {tla_set(deviations)}
   Lax = FALSE
   NetKinds = {tla_set(net_kinds)}
@@ -261,10 +263,12 @@ def normalise(outcome):
 
 # ------------------------------------------------------------------------------------------- trace validation
 
-def write_trace_cfg(path, deviations, props):
+def write_trace_cfg(path, deviations, props, server_hvr=False):
     with open(path, "w") as f:
         f.write(f"""SPECIFICATION TraceSpec
 CONSTANTS
+  AntiReplay = {{}}
+  ServerHvr = {"TRUE" if server_hvr else "FALSE"}
   Deviations = {tla_set(deviations)}
   Lax = TRUE
   Props = {tla_set(props)}
